@@ -29,7 +29,7 @@ ASSUMPTIONS = [
 FLOORS = {"quick": {"quantile_draws": 4000, "cases_decided": 30, "distinct_nontrivial": 20}, "thorough": {"quantile_draws": 100000, "cases_decided": 150}}
 
 GRID = {
-    "gauss": [(100, 10), (1000, 50), (5000, 150), (10, 1), (500, 200), (15000, 150), (250, 0.5)],
+    "gauss": [(100, 10), (1000, 50), (5000, 150), (10, 1), (500, 200), (15000, 150), (250, 0.5), (500, 0.25), (1200, 0.1), (40, 0.02)],
     "uniform": [(12, 72), (500, 600), (0, 10), (1000, 5000), (100, 200)],
     "log_normal": [(50, 1.1), (500, 1.5), (5000, 1.02), (100, 2.5), (1000, 1.2)],
     "poisson": [(1,), (10,), (65,), (500,), (3000,)],
@@ -105,6 +105,14 @@ def run_case(case):
             return ".schulz-zimm-z-below-1"
         return ""
 
+    # ---- other families with coinciding numbers are parsed (and used once) first
+    for dt in rd.decoy_texts(fam, params):
+        try:
+            dd = get_distribution(dt)
+            dd.prob_mw(float(params[0]))
+            cnt["decoys_parsed"] += 1
+        except Exception:
+            pass
     # ---- construction, text form, unknown names
     try:
         D = get_distribution(text_of(fam, params, rng.randrange(6)))
@@ -127,7 +135,8 @@ def run_case(case):
     x_hi = ref.ppf(hi_q) if fam != "uniform" else params[1]
     if fam == "gauss" and params[1] == 0:
         x_lo, x_hi = params[0] - 5, params[0] + 5
-    L = -1e9 if fam == "gauss" else (-5.0 if fam != "uniform" else params[0] - 10.0)
+    # lower end of the cumulative intervals: far below the support, but not so far that a + (b - a) loses digits
+    L = params[0] - 40.0 * max(params[1], 1e-3) if fam == "gauss" else (-5.0 if fam != "uniform" else params[0] - 10.0)
     discrete = fam in ("poisson", "flory_schulz", "schulz_zimm")
 
     def P(a, b):
